@@ -365,6 +365,15 @@ impl<'e> EventLoop<'e> {
             *pending = true;
             cvar.notify_one();
         }
+        // count this loop as running before its thread exists: `EventLoops::stop` waits for the
+        // count to reach zero, and a stop that comes before the thread has been scheduled must
+        // not see zero and report success while the accepted tasks have not run
+        {
+            let (lock, cvar) = &*self.shared_stop.clone();
+            let started = lock.lock().expect("lock failed");
+            _ = started.fetch_add(1, Ordering::Release);
+            cvar.notify_one();
+        }
         let thread_name = self.get_thread_name();
         let bean_name = self.name().to_string().leak();
         let bean_name_in_thread = self.name().to_string().leak();
@@ -377,12 +386,6 @@ impl<'e> EventLoop<'e> {
                     let consumer =
                         unsafe { BeanFactory::get_mut_bean::<Self>(bean_name_in_thread) }
                             .unwrap_or_else(|| panic!("bean {bean_name_in_thread} not exist !"));
-                    {
-                        let (lock, cvar) = &*consumer.shared_stop.clone();
-                        let started = lock.lock().expect("lock failed");
-                        _ = started.fetch_add(1, Ordering::Release);
-                        cvar.notify_one();
-                    }
                     // thread per core
                     info!(
                         "{} has started, bind to CPU:{}",
